@@ -27,7 +27,8 @@ class Obligation(object):
     def __init__(self, oid, body, props, fuc, mode="int", W=None, level="P", logic=None,
                  maxpaths=20000, index_limit=64, hash_limit=300, before_path=None,
                  bound=None, samples=12, expect="proved", rlimit=0, vc_timeout_ms=60000,
-                 setup=None):
+                 setup=None, budget_s=600):
+        self.budget_s = budget_s
         self.id = oid
         self.body = body
         self.props = list(props)
@@ -200,6 +201,27 @@ def _cvc5(solver, timeout_s=30):
         return "error:%s" % e
 
 
+def _solve(ob, pc, pz):
+    """pc and not pz with the in-process z3; nonlinear queries are either instant or hopeless
+    depending on the heuristics' luck, so an `unknown` is retried with other random seeds and
+    a growing share of the VC budget before it is handed to cvc5"""
+    total = ob.vc_timeout_ms
+    plan = [(0, max(1000, total // 8)), (7, max(1000, total // 4)), (23, max(1000, total // 2))]
+    v = z3.unknown
+    s = None
+    for seed, tmo in plan:
+        s = z3.SolverFor(ob.logic) if ob.logic else z3.Solver()
+        s.set("timeout", tmo)
+        if seed:
+            s.set("random_seed", seed)
+        s.add(*pc)
+        s.add(z3.Not(pz))
+        v = s.check()
+        if v != z3.unknown:
+            break
+    return v, s
+
+
 def verify(ob, tracer=None):
     """explore every path of ob.body on symbolic inputs; returns a result dict"""
     t0 = time.time()
@@ -219,8 +241,10 @@ def verify(ob, tracer=None):
     try:
         for r in explore(body, mode=ob.mode, W=ob.W, logic=ob.logic, maxpaths=ob.maxpaths,
                          index_limit=ob.index_limit, hash_limit=ob.hash_limit,
-                         rlimit=ob.rlimit, before_path=ob.before_path):
+                         rlimit=ob.rlimit, before_path=ob.before_path, timeout_ms=ob.vc_timeout_ms):
             res["paths"] += 1
+            if time.time() - t0 > ob.budget_s:
+                raise OutOfReach("time budget of %ds exhausted after %d paths" % (ob.budget_s, res["paths"]))
             if r.exc is not None:
                 res["raised_paths"] += 1
                 clauses = [("total(no exception): %s: %s" % (type(r.exc).__name__, str(r.exc)[:200]), False)]
@@ -230,6 +254,7 @@ def verify(ob, tracer=None):
                 res["sample_path"] = {"decisions": len(r.decisions),
                                       "path_condition": [str(z3.simplify(c))[:160] for c in r.pc[:6]],
                                       "clauses": [c[0] for c in clauses]}
+            zclauses = []
             for cname, post in clauses:
                 res["vcs"] += 1
                 try:
@@ -242,17 +267,28 @@ def verify(ob, tracer=None):
                     res["discharged"] += 1
                     res["backend"]["simplifier"] = res["backend"].get("simplifier", 0) + 1
                     continue
+                zclauses.append((cname, pz))
+            if len(zclauses) > 1 and not os.environ.get("VERIF_NOBATCH"):
+                # all clauses of the path at once; on success every one of them is discharged
                 s = z3.SolverFor(ob.logic) if ob.logic else z3.Solver()
                 s.set("timeout", ob.vc_timeout_ms)
                 s.add(*r.pc)
-                s.add(z3.Not(pz))
+                s.add(z3.Not(z3.And(*[c[1] for c in zclauses])))
                 ts = time.time()
                 v = s.check()
                 res["solver_s"] += time.time() - ts
+                if v == z3.unsat:
+                    res["discharged"] += len(zclauses)
+                    res["backend"]["z3"] = res["backend"].get("z3", 0) + len(zclauses)
+                    zclauses = []
+            for cname, pz in zclauses:
+                ts = time.time()
+                v, s = _solve(ob, r.pc, pz)
+                res["solver_s"] += time.time() - ts
                 be = "z3"
-                if v == z3.unknown:
+                if v == z3.unknown and time.time() - t0 < ob.budget_s:
                     ts = time.time()
-                    out = _cvc5(s)
+                    out = _cvc5(s, timeout_s=max(5, min(30, ob.vc_timeout_ms // 1000)))
                     res["solver_s"] += time.time() - ts
                     if out == "unsat":
                         v = z3.unsat
